@@ -1,5 +1,92 @@
-"""Thorough tier: checker self-test on seeded variants (filled in below)."""
+"""Thorough tier: checker self-test.
+
+Every patch kept under variants/<ID>/ (my own mutants and reverts of the fix commits) and seeded/<ID>-*/
+(changes produced by independent sub-agents and confirmed by hand) is applied to a scratch copy of the CURRENT
+working tree of the repository (never to the repository itself), facts are re-extracted from that copy and the
+property's rules are run on it. A variant that is expected to be caught must produce a VIOLATION; a seeded change
+recorded as a miss must still be a miss (otherwise its record is out of date). Nothing is executed from the
+repository: each run is the same static analysis on a different source tree.
+
+Outcome: 0 = all expectations met; 2 (CHECK-ERROR) = a variant that used to be detected is no longer detected.
+Patches that no longer apply to the current tree are reported as stale and skipped.
+"""
+import glob, json, os, shutil, subprocess, sys, tempfile, time
+
+VERIF = os.path.dirname(os.path.dirname(os.path.abspath(__file__)))
+REPO = os.environ.get("VERIF_REPO", "/repo")
+
+
+def patches_for(pid):
+    out = []
+    for p in sorted(glob.glob(os.path.join(VERIF, "variants", pid, "*.patch"))):
+        out.append((os.path.relpath(p, VERIF), p, True))
+    for d in sorted(glob.glob(os.path.join(VERIF, "seeded", pid + "-*"))):
+        p = os.path.join(d, "patch.diff")
+        if not os.path.exists(p):
+            continue
+        caught = True
+        try:
+            with open(os.path.join(d, "meta.json")) as fh:
+                caught = not str(json.load(fh).get("caught_by", "")).upper().startswith("NOT CAUGHT")
+        except OSError:
+            pass
+        out.append((os.path.relpath(p, VERIF), p, caught))
+    return out
 
 
 def run(pid):
+    pats = patches_for(pid)
+    if not pats:
+        print("[%s] self-test: no variants recorded" % pid)
+        return 0
+    base = tempfile.mkdtemp(prefix="verif-selftest-%s-" % pid, dir="/var/tmp")
+    scratch = os.path.join(base, "repo")
+    results = []
+    t0 = time.time()
+    try:
+        subprocess.run(["rsync", "-a", "--exclude", "/target", "--exclude", "/.git", "--exclude", "node_modules",
+                        REPO.rstrip("/") + "/", scratch + "/"], check=True)
+        subprocess.run(["git", "init", "-q"], cwd=scratch, check=True)
+        subprocess.run("git add -A >/dev/null && git -c user.name=s -c user.email=s@s commit -qm base", cwd=scratch, shell=True, check=True)
+        env = dict(os.environ, VERIF_REPO=scratch, VERIF_TARGET=os.path.join(base, "target"),
+                   VERIF_EVIDENCE_DIR=os.path.join(base, "evidence"), VERIF_TIER="quick")
+        for rel, path, expect_caught in pats:
+            a = subprocess.run(["git", "apply", path], cwd=scratch, stdout=subprocess.PIPE, stderr=subprocess.STDOUT, text=True)
+            if a.returncode != 0:
+                results.append((rel, "stale", "does not apply to the current tree"))
+                continue
+            p = subprocess.run([sys.executable, os.path.join(VERIF, "rules", "engine.py"), pid, "--tier", "quick"], env=env,
+                               stdout=subprocess.PIPE, stderr=subprocess.STDOUT, text=True)
+            subprocess.run("git checkout -q -- . && git clean -fdq", cwd=scratch, shell=True)
+            viol = [l for l in p.stdout.splitlines() if l.startswith("VIOLATION property=%s" % pid)]
+            fails = [l.strip() for l in p.stdout.splitlines() if l.strip().startswith("FAILS ")]
+            if p.returncode == 1 and viol:
+                verdict = "caught" if expect_caught else "caught-but-recorded-as-miss"
+            elif p.returncode == 0:
+                verdict = "MISSED" if expect_caught else "miss (as recorded)"
+            else:
+                verdict = "check-error" if expect_caught else "miss (as recorded)"
+            results.append((rel, verdict, (fails[0][:160] if fails else p.stdout.strip().splitlines()[-1][:160] if p.stdout.strip() else "")))
+    finally:
+        shutil.rmtree(base, ignore_errors=True)
+    bad = [r for r in results if r[1] in ("MISSED", "check-error")]
+    for rel, verdict, detail in results:
+        print("[%s] self-test %-28s %s  %s" % (pid, verdict, rel, detail))
+    # append to the evidence file written by the run on the real tree
+    evp = os.path.join(os.environ.get("VERIF_EVIDENCE_DIR", os.path.join(VERIF, "evidence")), pid + ".json")
+    try:
+        with open(evp) as fh:
+            ev = json.load(fh)
+        ev["coverage"]["self_test"] = {
+            "what": "each recorded variant applied to a scratch copy of the current tree, facts re-extracted, rules re-run",
+            "variants": [{"patch": r, "verdict": v, "first_report": d} for r, v, d in results],
+            "caught": sum(1 for r in results if r[1] == "caught"), "stale": sum(1 for r in results if r[1] == "stale"),
+            "recorded_misses": sum(1 for r in results if r[1].startswith("miss")), "seconds": round(time.time() - t0, 1)}
+        with open(evp, "w") as fh:
+            json.dump(ev, fh, indent=1)
+    except (OSError, KeyError, ValueError):
+        pass
+    if bad:
+        print("CHECK-ERROR property=%s self-test: %d recorded variant(s) no longer detected: %s" % (pid, len(bad), [b[0] for b in bad]))
+        return 2
     return 0
